@@ -641,6 +641,37 @@ Example dsrc_example :
   agree_dsrc ([0;0;0;0;0;0;0;1; 0;0;0;0] ++ [0;1;0;1;1; 1;0;1; 1;0;1; 0;1;0; 0;1;1; 1;0;1; 1;0;0]) = false.
 Proof. vm_compute. repeat split. Qed.
 
+(* ---- initialize_backend (leading digit 8): `import tensorly` in a FRESH process with TENSORLY_BACKEND /
+   TENSORLY_TENALG_BACKEND set: digits tenalg, requested name (0 = variable unset, 1 + name code otherwise), outcome
+   (0 imported, 1 imported with the UserWarning, 2 import failed, 3 failed after the warning), name code get_backend()
+   returns in the importing thread, in a thread started afterwards, code of cls._default_backend.  Name codes as above;
+   in a fresh process the harness classes are not registered: tensorly.backend knows numpy (0), lists pytorch (3) which
+   cannot be imported here; tensorly.tenalg knows core (0), einsum (1) *)
+Definition listed_plain (tenalg : bool) (n : name) : bool := if tenalg then n <=? 1 else (n =? 0) || (n =? 3).
+Definition cfg_plain (tenalg : bool) : cfg :=
+  {| known := fun n => if tenalg then n <=? 1 else n =? 0; cname := fun _ => 0 |}.
+
+Definition agree_init (l : list nat) : bool :=
+  match l with
+  | [ta; env; outc; qm; qf; dn] =>
+      let tenalg := dec_bool ta in
+      let cf := cfg_plain tenalg in
+      match initialize fixed_rules cf (listed_plain tenalg) (match env with 0 => None | S n => Some n end) 0 with
+      | IOk w s =>
+          (outc <? 2) && Bool.eqb w (outc =? 1) &&
+          obs_eqb (out fixed_rules cf s (Query 0)) (OName qm) && obs_eqb (out fixed_rules cf s (Query 1)) (OName qf) &&
+          (dname s =? dn)
+      | IFail w => (1 <? outc) && Bool.eqb w (outc =? 3)
+      end
+  | _ => false
+  end.
+
+Example init_example :
+  agree_init [0;0;0;0;0;0] = true /\ agree_init [0;1;0;0;0;0] = true /\ agree_init [0;5;1;0;0;0] = true /\
+  agree_init [0;4;2;0;0;0] = true /\ agree_init [1;2;0;1;1;1] = true /\ agree_init [1;2;0;1;0;1] = false /\
+  agree_init [0;5;0;0;0;0] = false /\ agree_init [0;4;0;3;3;3] = false /\ agree_init [1;6;1;0;0;0] = true.
+Proof. vm_compute. repeat split. Qed.
+
 Definition agree (c : case) : bool :=
   match digits (snd c) with
   | 3 :: l => match decode_m l with Some m => agree_m m | None => false end
@@ -648,6 +679,7 @@ Definition agree (c : case) : bool :=
   | 5 :: l => match decode_mN l with Some m => agree_mN m | None => false end
   | 6 :: l => agree_d l
   | 7 :: l => agree_dsrc l
+  | 8 :: l => agree_init l
   | _ => agree_hist (snd c)
   end.
 
